@@ -25,6 +25,8 @@ type c15P struct {
 	R      uint64 `json:"r"`       // trust range
 	Cand   string `json:"cand"`    // canonical | forged-rightlink | forged-wronglink | signed-relink
 	FailAt int    `json:"fail_at"` // index of the getter.GetByHeight call that fails (-1 none)
+	Via    string `json:"via"`     // "" = gossip delivery | "head" = learned through Syncer.Head() from the trusted getter
+	Soft   bool   `json:"soft"`    // the header type reports its own rejections as SoftFailure (also adjacent ones)
 }
 
 func TestC15(t *testing.T) {
@@ -40,6 +42,21 @@ func TestC15(t *testing.T) {
 		ds = append(ds, 100000)
 	}
 	rng := r.Rand("c15")
+	// the candidate arrives through the head-request path; header types that flag their rejections soft
+	for _, d := range []uint64{1, 2, 3, 7, 30} {
+		for _, R := range []uint64{1, 2, 5} {
+			for _, cand := range []string{"canonical", vh.VForgedRightLink, vh.VForgedWrongLink} {
+				for _, soft := range []bool{false, true} {
+					for _, via := range []string{"", "head"} {
+						if d == 1 && !soft {
+							continue // adjacent and hard: never reaches bifurcation
+						}
+						mon.Emit(r, "bifurcate", c15P{S: 10, D: d, R: R, Cand: cand, FailAt: -1, Via: via, Soft: soft}, "bifurcate")
+					}
+				}
+			}
+		}
+	}
 	for _, d := range ds {
 		rs := []uint64{1, 2, 3, 5, 16, d - 1}
 		if d >= 1000 {
@@ -79,17 +96,30 @@ func c15Run(c *mon.Case, p c15P) {
 	c.Bubble(func() {
 		vh.SetTrustRange(p.R)
 		defer vh.SetTrustRange(0)
+		vh.SetSoftType(p.Soft)
+		defer vh.SetSoftType(false)
 		n := int(p.S + p.D)
 		chain := regularChain(n, time.Second, time.Second)
 		w := newWorld(c, chain, 1, p.S, uint64(n))
 		defer w.close()
-		if err := w.newSyncer(hsync.WithBlockTime(time.Second), hsync.WithRecencyThreshold(10000*time.Hour), hsync.WithTrustingPeriod(10000*time.Hour), hsync.WithSyncFromHeight(1)); err != nil {
+		recency := 10000 * time.Hour
+		if p.Via == "head" {
+			recency = time.Nanosecond // every Head() call asks the trusted getter
+		}
+		if err := w.newSyncer(hsync.WithBlockTime(time.Second), hsync.WithRecencyThreshold(recency), hsync.WithTrustingPeriod(10000*time.Hour), hsync.WithSyncFromHeight(1)); err != nil {
 			c.T.Fatalf("syncer: %v", err)
 		}
 		failed := false
+		bound := int(p.D)*(bits.Len64(p.D)+2) + 2
+		runaway := false
 		w.g.ByHeightFn = func(call int, height uint64) (H, error, bool) {
 			if call == p.FailAt {
 				failed = true
+				return nil, errGetterDown, true
+			}
+			if call > bound+8 {
+				// a search that does not terminate: stop serving so that the case can end, and report it
+				runaway = true
 				return nil, errGetterDown, true
 			}
 			return nil, nil, false
@@ -111,15 +141,51 @@ func c15Run(c *mon.Case, p c15P) {
 		} else {
 			cand = chain.Variant(p.Cand, p.S+p.D, 7)
 		}
-		ctx, cancel := context.WithTimeout(context.Background(), time.Hour)
-		verr := w.sub.deliver(ctx, cand)
-		cancel()
+		var verr error
+		if p.Via == "head" {
+			// what a contract-abiding Exchange.Head(WithTrustedHead) returns: the head together with its
+			// SoftFailure error, nothing for a hard failure
+			w.g.HeadFn = func(_ int, trusted H) (H, error) {
+				if trusted.IsZero() {
+					return chain.At(p.S), nil
+				}
+				e := header.Verify(trusted, cand)
+				if e == nil {
+					return cand, nil
+				}
+				var ve *header.VerifyError
+				if errors.As(e, &ve) && ve.SoftFailure {
+					return cand, e
+				}
+				return nil, header.ErrNotFound
+			}
+			hctx, hc := context.WithTimeout(context.Background(), time.Hour)
+			got, herr := w.syn.Head(hctx)
+			hc()
+			// via Head() a refusal is not an error: the previous subjective head is returned instead
+			if herr != nil {
+				verr = herr
+			} else if got.Hash().String() != cand.Hash().String() {
+				verr = fmt.Errorf("candidate not adopted: Head() returned %v", got)
+			}
+			w.g.HeadFn = func(_ int, trusted H) (H, error) { return nil, errGetterDown } // no further head requests
+		} else {
+			ctx, cancel := context.WithTimeout(context.Background(), time.Hour)
+			verr = w.sub.deliver(ctx, cand)
+			cancel()
+		}
 		calls := w.g.Calls("byheight")[pre:]
+		if runaway {
+			c.Violation("search-does-not-terminate/"+fmt.Sprintf("cand=%s", p.Cand), fmt.Sprintf("more than %d getter requests for distance %d without a verdict", bound+8, p.D), nil)
+		}
 		c.Count("bifurcation_getter_calls", len(calls))
 		c.Count("deliveries", 1)
 
 		canonical := p.Cand == "canonical"
 		wantAccept := canonical && !failed
+		if p.Via == "head" && canonical && p.D <= p.R && !failed {
+			wantAccept = true
+		}
 		outcome := "refused"
 		if verr == nil {
 			outcome = "accepted"
@@ -134,8 +200,11 @@ func c15Run(c *mon.Case, p c15P) {
 		default:
 			steps = "9+"
 		}
-		c.Class("d=%s R=%s cand=%s getterfail=%v => %s steps=%s", bucket(p.D), bucket(p.R), p.Cand, failed, outcome, steps)
+		c.Class("d=%s R=%s cand=%s getterfail=%v via=%s soft=%v => %s steps=%s", bucket(p.D), bucket(p.R), p.Cand, failed, p.Via, p.Soft, outcome, steps)
 		shape := fmt.Sprintf("cand=%s/getterfail=%v", p.Cand, failed)
+		if p.Via != "" || p.Soft {
+			shape += fmt.Sprintf("/via=%s/soft=%v", p.Via, p.Soft)
+		}
 
 		if (verr == nil) != wantAccept {
 			if verr == nil {
@@ -145,7 +214,6 @@ func c15Run(c *mon.Case, p c15P) {
 			}
 		}
 		// bounded search
-		bound := int(p.D) * (bits.Len64(p.D) + 2)
 		if len(calls) > bound {
 			c.Violation("search-exceeds-bound/"+shape, fmt.Sprintf("%d getter requests for distance %d (bound %d)", len(calls), p.D, bound), nil)
 		}
